@@ -277,3 +277,143 @@ impl Ag {
 pub fn hexs(b: &[u8]) -> String {
     hex::encode(b)
 }
+
+// ------------------------------------------------------------------------------------------------
+// C01 tie check of the idealisation S-agg: an INDEPENDENT reference implementation of the formula of
+// `BlsSignature::aggregate` (mithril-stm/src/signature_scheme/bls_multi_signature/signature.rs),
+// written with the low-level `blst` point functions and the `blake2` crate only (no mithril-stm):
+//   c_i   = Blake2b-128(sigma_0 || ... || sigma_{n-1} || i as usize, big endian)   (i = 0..n-1)
+//   sigma = sum_i c_i * sigma_i in G1,   vk = sum_i c_i * vk_i in G2,
+// where the 16 hash bytes are the scalar in LITTLE-endian byte order (blst's convention for
+// `p1_affines::mult(&scalars, 128)`); n = 1 returns the pair unchanged.
+// ------------------------------------------------------------------------------------------------
+pub mod blsref {
+    use blake2::{digest::consts::U16, Blake2b, Digest};
+    use blst::{
+        blst_p1, blst_p1_add_or_double, blst_p1_affine, blst_p1_cneg, blst_p1_compress, blst_p1_from_affine,
+        blst_p1_generator, blst_p1_mult, blst_p1_uncompress, blst_p2, blst_p2_add_or_double, blst_p2_affine,
+        blst_p2_compress, blst_p2_from_affine, blst_p2_mult, blst_p2_uncompress, BLST_ERROR,
+    };
+
+    pub fn p1_of(b: &[u8]) -> Option<blst_p1> {
+        if b.len() != 48 {
+            return None;
+        }
+        let mut a = blst_p1_affine::default();
+        let mut p = blst_p1::default();
+        unsafe {
+            if blst_p1_uncompress(&mut a, b.as_ptr()) != BLST_ERROR::BLST_SUCCESS {
+                return None;
+            }
+            blst_p1_from_affine(&mut p, &a);
+        }
+        Some(p)
+    }
+    pub fn p1_bytes(p: &blst_p1) -> Vec<u8> {
+        let mut o = [0u8; 48];
+        unsafe { blst_p1_compress(o.as_mut_ptr(), p) };
+        o.to_vec()
+    }
+    /// `scalar`: little-endian bytes
+    pub fn p1_mul(p: &blst_p1, scalar: &[u8]) -> blst_p1 {
+        let mut o = blst_p1::default();
+        unsafe { blst_p1_mult(&mut o, p, scalar.as_ptr(), scalar.len() * 8) };
+        o
+    }
+    pub fn p1_add(a: &blst_p1, b: &blst_p1) -> blst_p1 {
+        let mut o = blst_p1::default();
+        unsafe { blst_p1_add_or_double(&mut o, a, b) };
+        o
+    }
+    pub fn p1_neg(a: &blst_p1) -> blst_p1 {
+        let mut o = *a;
+        unsafe { blst_p1_cneg(&mut o, true) };
+        o
+    }
+    /// t * G1 generator (t little-endian bytes): a point of the prime-order subgroup
+    pub fn g1_times(t: &[u8]) -> blst_p1 {
+        let g = unsafe { *blst_p1_generator() };
+        p1_mul(&g, t)
+    }
+    pub fn p2_of(b: &[u8]) -> Option<blst_p2> {
+        if b.len() != 96 {
+            return None;
+        }
+        let mut a = blst_p2_affine::default();
+        let mut p = blst_p2::default();
+        unsafe {
+            if blst_p2_uncompress(&mut a, b.as_ptr()) != BLST_ERROR::BLST_SUCCESS {
+                return None;
+            }
+            blst_p2_from_affine(&mut p, &a);
+        }
+        Some(p)
+    }
+    pub fn p2_bytes(p: &blst_p2) -> Vec<u8> {
+        let mut o = [0u8; 96];
+        unsafe { blst_p2_compress(o.as_mut_ptr(), p) };
+        o.to_vec()
+    }
+    pub fn p2_mul(p: &blst_p2, scalar: &[u8]) -> blst_p2 {
+        let mut o = blst_p2::default();
+        unsafe { blst_p2_mult(&mut o, p, scalar.as_ptr(), scalar.len() * 8) };
+        o
+    }
+    pub fn p2_add(a: &blst_p2, b: &blst_p2) -> blst_p2 {
+        let mut o = blst_p2::default();
+        unsafe { blst_p2_add_or_double(&mut o, a, b) };
+        o
+    }
+
+    fn h16(parts: &[&[u8]]) -> [u8; 16] {
+        let mut h = Blake2b::<U16>::new();
+        for p in parts {
+            h.update(p);
+        }
+        let mut o = [0u8; 16];
+        o.copy_from_slice(&h.finalize());
+        o
+    }
+    /// the coefficients of today's source: every one depends on ALL the signatures
+    pub fn coeff_all(sigmas: &[Vec<u8>], i: usize) -> [u8; 16] {
+        let mut parts: Vec<&[u8]> = sigmas.iter().map(|s| &s[..]).collect();
+        let ib = i.to_be_bytes();
+        parts.push(&ib);
+        h16(&parts)
+    }
+    /// weak family 1: a public constant per slot, independent of every signature
+    pub fn coeff_const(i: usize) -> [u8; 16] {
+        h16(&[&i.to_be_bytes()])
+    }
+    /// weak family 2: depends on the slot's own signature only
+    pub fn coeff_own(sigma: &[u8], i: usize) -> [u8; 16] {
+        h16(&[sigma, &i.to_be_bytes()])
+    }
+
+    /// reference of `BlsSignature::aggregate`: (aggregate vk bytes (96), aggregate sigma bytes (48));
+    /// `None` where the real function returns an error (length mismatch / empty) or a point does not decode
+    pub fn aggregate(vks: &[Vec<u8>], sigmas: &[Vec<u8>]) -> Option<(Vec<u8>, Vec<u8>)> {
+        if vks.len() != sigmas.len() || vks.is_empty() {
+            return None;
+        }
+        if vks.len() < 2 {
+            return Some((vks[0].clone(), sigmas[0].clone()));
+        }
+        let mut acc1: Option<blst_p1> = None;
+        let mut acc2: Option<blst_p2> = None;
+        for i in 0..vks.len() {
+            let c = coeff_all(sigmas, i);
+            let s = p1_mul(&p1_of(&sigmas[i])?, &c);
+            let v = p2_mul(&p2_of(&vks[i])?, &c);
+            acc1 = Some(match acc1 {
+                None => s,
+                Some(a) => p1_add(&a, &s),
+            });
+            acc2 = Some(match acc2 {
+                None => v,
+                Some(a) => p2_add(&a, &v),
+            });
+        }
+        Some((p2_bytes(&acc2?), p1_bytes(&acc1?)))
+    }
+}
